@@ -22,9 +22,7 @@ let frame_check_verified ~id (f : itree) (h : itree) : bool =
   if extendsb (arena_of f) (arena_of h) then true
   else (result id "VIOL" "frame" "the result arena does not extend the receiver's arena (index / parent / children / cached state / decision value of a node changed)"; false)
 
-let check (case : Sexp.t) : unit =
-  match case with
-  | List [Atom "case"; Atom id; Atom "compose"; Atom k; sf; sg; sg2; Atom oc; sh; List (Atom "pts" :: pts)] ->
+let check_compose ~(order : int list option) id k sf sg sg2 oc sh pts : unit =
     bump ("compose_K" ^ k);
     let f = itree_of sf and g = itree_of sg in
     (match ptree_of f, ptree_of g with
@@ -56,15 +54,43 @@ let check (case : Sexp.t) : unit =
                  about this model *)
               (let af = arena_of f in
                let root = nat_of_int (match f.root with Some r -> r | None -> 0) in
-               match arena_compose next_key (nat_of_int (int_of_string k)) comp_schema tg af with
-               | Some a' ->
-                 (match abs_at (nat_of_int (List.length a' + 1)) a' root with
-                  | Some t' when ptree_eq t' spec -> bump "arena_model_agree"
-                  | _ -> bump "arena_model_mismatch"; result id "MIRROR" "arena-model" "abs of the arena-level model run differs from the lifted tree")
-               | None -> bump "arena_model_panic"; result id "MIRROR" "arena-model" "the arena-level model run does not return Ok");
+               (match arena_compose next_key (nat_of_int (int_of_string k)) comp_schema tg af with
+                | Some a' ->
+                  (match abs_at (nat_of_int (List.length a' + 1)) a' root with
+                   | Some t' when ptree_eq t' spec -> bump "arena_model_agree"
+                   | _ -> bump "arena_model_mismatch"; result id "MIRROR" "arena-model" "abs of the arena-level model run differs from the lifted tree")
+                | None -> bump "arena_model_panic"; result id "MIRROR" "arena-model" "the arena-level model run does not return Ok");
+               (* the same model run with the terminals in the order the harness handed to generic_composition_inplace
+                  (Pwl/ArenaComposeOrder.v, C02_arena_any_terminal_order): the list must be a permutation of the
+                  terminal keys of the dumped receiver (the hypothesis of the theorem), the run must return Ok and
+                  abstract to the lifted tree *)
+               match order with
+               | None -> ()
+               | Some ord ->
+                 let tk = List.map int_of_nat (terminal_keys af) in
+                 if ord <> tk then bump "order_not_ascending";
+                 if List.sort compare ord = tk then begin
+                   bump "order_is_permutation";
+                   match arena_compose_list next_key (nat_of_int (int_of_string k)) comp_schema tg (List.map nat_of_int ord) af with
+                   | Some a' ->
+                     (match abs_at (nat_of_int (List.length a' + 1)) a' root with
+                      | Some t' when ptree_eq t' spec -> bump "arena_order_model_agree"
+                      | _ -> bump "arena_order_model_mismatch"; result id "MIRROR" "arena-order-model" "abs of the arena-level model run with the harness's terminal order differs from the lifted tree")
+                   | None -> bump "arena_order_model_panic"; result id "MIRROR" "arena-order-model" "the arena-level model run with the harness's terminal order does not return Ok"
+                 end else begin
+                   bump "order_not_permutation";
+                   result id "MIRROR" "arena-order" "the terminal list the harness dumped is not a permutation of the terminal keys of the dumped receiver"
+                 end);
               if ok1 && ok2 && ok3 && ok4 then result id "OK" "compose" ""
           end)
      | _ -> result id "ERR" "abs" "operand arena is not a tree")
+
+let check (case : Sexp.t) : unit =
+  match case with
+  | List [Atom "case"; Atom id; Atom "compose"; Atom k; sf; sg; sg2; Atom oc; sh; List (Atom "pts" :: pts)] ->
+    check_compose ~order:None id k sf sg sg2 oc sh pts
+  | List [Atom "case"; Atom id; Atom "compose"; Atom k; sf; sg; sg2; Atom oc; sh; List (Atom "pts" :: pts); List (Atom "order" :: ord)] ->
+    check_compose ~order:(Some (List.map (function Atom x -> int_of_string x | _ -> -1) ord)) id k sf sg sg2 oc sh pts
   | List [Atom "case"; Atom id; Atom "apply_func"; Atom k; sf; sa; Atom oc; sh; List (Atom "pts" :: pts)] ->
     bump ("apply_func_K" ^ k);
     let f = itree_of sf and a = aff_of sa in
